@@ -101,3 +101,27 @@ Proof. vm_compute. reflexivity. Qed.
 Example C01_example_roundtrip :
   match render_checked example_doc with Some b => parse b = sem example_doc | None => False end.
 Proof. vm_compute. reflexivity. Qed.
+
+(* ---- tie of the hand-written scanners to the literals of the CURRENT source (Generated/YannyLits.v is
+   regenerated from yanny.py on every run by translate/c01.py) ---- *)
+From PV Require Import Generated.YannyLits C01.Lits.
+
+(* the source uses exactly the regular expressions the scanners of Yanny/Parse.v were written for *)
+Theorem C01_source_regexes_are_the_scanners : yanny_regexes = scanner_regexes.
+Proof. exact regexes_are_the_scanners. Qed.
+Print Assumptions C01_source_regexes_are_the_scanners.
+
+(* ... and the same type-name tables, integer/float classes and quoting condition *)
+Theorem C01_source_tables_are_the_scanners :
+  yanny_dtmap_write = scanner_dtmap_write /\ yanny_dtmap_read = scanner_dtmap_read /\
+  yanny_int_types = scanner_int_types /\ yanny_float_types = scanner_float_types /\
+  yanny_protect_condition = scanner_protect_condition.
+Proof. exact tables_are_the_scanners. Qed.
+Print Assumptions C01_source_tables_are_the_scanners.
+
+Theorem C01_source_type_names_are_keywords :
+  map (fun p => bs (snd p)) yanny_dtmap_write = [KW_SHORT; KW_INT; KW_LONG; KW_FLOAT; KW_DOUBLE] /\
+  map (fun p => bs (fst p)) yanny_dtmap_read = [KW_SHORT; KW_INT; KW_LONG; KW_FLOAT; KW_DOUBLE] /\
+  map bs yanny_int_types = [KW_SHORT; KW_INT; KW_LONG] /\ map bs yanny_float_types = [KW_FLOAT; KW_DOUBLE].
+Proof. exact type_names_are_keywords. Qed.
+Print Assumptions C01_source_type_names_are_keywords.
